@@ -39,12 +39,20 @@ def run_dry_vs_real(tier="quick", seed=0):
                               "failed": sorted(os.path.relpath(f, root) if os.path.isabs(f) else f for f in (r.get("failedFiles") or []))}
                for r in rep["results"]}
         return rc, res
+    # a second project: two manifests, the preferred one (pyproject.toml with `dynamic` dependencies) declines, requirements.txt accepts
+    two_manifests = {
+        "app.py": "import xml.etree.ElementTree as ET\n\nET.parse('data.xml')\n",
+        "requirements.txt": "requests>=2.0\n",
+        "pyproject.toml": "[build-system]\nrequires = [\"setuptools\"]\n\n[project]\nname = \"demo\"\nversion = \"0.1\"\ndynamic = [\"dependencies\"]\n\n"
+                          "[tool.setuptools.dynamic]\ndependencies = {file = [\"requirements.txt\"]}\n",
+    }
+    cases = [(cid, FILES) for cid in codemods] + [("pixee:python/use-defusedxml", two_manifests)]
     try:
         os.chdir(base)
-        for k, cid in enumerate(codemods):
+        for k, (cid, files) in enumerate(cases):
             a, b = os.path.join(base, f"dry{k}"), os.path.join(base, f"real{k}")
             for root in (a, b):
-                for f, text in FILES.items():
+                for f, text in files.items():
                     os.makedirs(os.path.dirname(os.path.join(root, f)), exist_ok=True)
                     open(os.path.join(root, f), "w").write(text)
             before = _tree(a)
@@ -64,7 +72,8 @@ def run_dry_vs_real(tier="quick", seed=0):
         os.chdir(cwd)
         shutil.rmtree(base, ignore_errors=True)
     return {"kind": "bounded", "id": "bounded:--dry-run predicts the real run (real CLI on a small project)", "status": "refuted" if bad else "discharged",
-            "bound": f"{len(codemods)} single-codemod runs over a 4-file project (one dependency-adding codemod, a manifest that is also code, a file that fails to parse)",
+            "bound": f"{len(codemods)} single-codemod runs over a 4-file project (one dependency-adding codemod, a manifest that is also code, a file that fails to parse) "
+                     "+ 1 run over a project with two manifests of which the first declines",
             "evaluations": evals, "witness": bad, "func": "codemodder.codemodder.run",
             "reason": "" if not bad else f"clause '{bad.get('clause')}' fails for {bad.get('codemod')}",
             "replay": {"reproduced": True, "detail": json.dumps(bad, default=str)[:2500]} if bad else None,
